@@ -114,7 +114,7 @@ Definition Inv (s : st) (L : led) : Prop :=
 
 Lemma inv_init cfg s : cfg_ok cfg = true -> init cfg = Some s -> Inv s (linit cfg).
 Proof.
-  unfold cfg_ok, init, linit. destruct cfg as [|l [|cl [|x r]]]; try discriminate.
+  unfold cfg_ok, init, linit. destruct (cfg2 cfg) as [|l [|cl [|x r]]]; try discriminate.
   intros Hc Hi. consts. inversion Hi; subst s; clear Hi.
   rewrite !u32_small by lia.
   unfold Inv, SInv, win, cwin; cbn. repeat split; lia.
